@@ -31,6 +31,7 @@ structure Conn where
   closing : Bool := false      -- transport.close() was called, or asyncio force-closed it
   gone : Bool := false         -- connection_lost was delivered
   inbound : Bytes := []        -- ghost: every byte received on this connection
+  processed : List Frame := [] -- ghost: every frame decoded and dispatched on this connection
   sent : List Bytes := []      -- ghost: every frame written on this connection
   handshake : Option (Bytes × List Bytes) := none  -- ghost: (nonce answered, wanted set) when it became ready
 deriving Repr
@@ -56,6 +57,7 @@ structure State where
   queue : List Message := []       -- read_queue
   readers : Nat := 0               -- read() calls waiting
   received : List Message := []    -- ghost: every OP_PUBLISH decoded, in order
+  allProcessed : List Frame := []  -- ghost: every frame dispatched, over all connections, in order
   handedLog : List Message := []   -- ghost: every message handed to a read(), in order
   attempts : Nat := 0              -- ghost
 deriving Repr
@@ -140,13 +142,18 @@ def onFrame (cfg : Cfg) (s : State) (f : Frame) : State × List Out × Ctl :=
     | .unsubscribe _ _ => let r := closeT s; (r.1, r.2, .cont)
     | .publish i c p => let r := deliver s (i, c, p); (r.1, r.2, .cont)
 
+/-- ghost: record that frame `f` was popped from the unpacker and dispatched -/
+def noteFrame (s : State) (f : Frame) : State :=
+  { s with allProcessed := s.allProcessed ++ [f]
+           conn := s.conn.map fun c => { c with processed := c.processed ++ [f] } }
+
 /-- `process_pending` over the connection's buffer -/
 def loop (cfg : Cfg) (s : State) (buf : Bytes) : State × List Out × Bytes × Ctl :=
   match h : header buf with
   | .wait => (s, [], buf, .cont)
   | .bad _ => let r := closeT s; (r.1, r.2, buf, .cont)
   | .ok ml op =>
-    let r := onFrame cfg s (popFrame buf ml op).1
+    let r := onFrame cfg (noteFrame s (popFrame buf ml op).1) (popFrame buf ml op).1
     match r.2.2 with
     | .crash => (r.1, r.2.1, (popFrame buf ml op).2, .crash)
     | .cont =>
@@ -164,10 +171,8 @@ def kick (s : State) : State × List Out :=
 
 def usable (s : State) : Bool := match s.conn with | some c => c.ready | none => false
 
-def step (cfg : Cfg) (s0 : State) (e : Ev) : State × List Out :=
-  let k := kick s0
-  let s := k.1
-  let pre := k.2
+/-- one event, after the reconnect task had its chance to start (`pre` = what that produced) -/
+def stepK (cfg : Cfg) (s : State) (pre : List Out) (e : Ev) : State × List Out :=
   match e with
   | .idle => (s, pre)
   | .sub ch =>
@@ -212,6 +217,8 @@ def step (cfg : Cfg) (s0 : State) (e : Ev) : State × List Out :=
     match s.conn with
     | none => (s, pre)
     | some c =>
+      -- asyncio delivers no data after close() or connection_lost
+      if c.gone || c.closing then (s, pre) else
       let s1 := { s with conn := some { c with inbound := c.inbound ++ b } }
       let r := loop cfg s1 (c.buf ++ b)
       let sr := r.1
@@ -231,6 +238,9 @@ def step (cfg : Cfg) (s0 : State) (e : Ev) : State × List Out :=
           pre ++ (if s.closeWait then [.closeDone] else []))
       else
         ({ s with conn := none, task := .connecting, attempts := s.attempts + 1 }, pre ++ [.attempt])
+
+def step (cfg : Cfg) (s0 : State) (e : Ev) : State × List Out :=
+  stepK cfg (kick s0).1 (kick s0).2 e
 
 def run (cfg : Cfg) (es : List Ev) : State × List Out :=
   es.foldl (fun acc e => let r := step cfg acc.1 e; (r.1, acc.2 ++ r.2)) ({}, [])
